@@ -198,7 +198,7 @@ V('C06', 'nop-ignores-discourage-flag', EVAL, "                if SCRIPT_VERIFY_
 V('C06', 'verif-not-always-fail', SCRIPT, 'DISABLED_OPCODES = frozenset((OP_VERIF, OP_VERNOTIF,', 'DISABLED_OPCODES = frozenset((OP_VERNOTIF,', ['C06.D2', 'C06.D1'])
 V('C06', 'p2sh-without-push-only', EVAL, "        if not scriptSig.is_push_only():\n            raise VerifyScriptError(\"P2SH scriptSig not is_push_only()\")\n", "", 'C06.V1', scope='VerifyScript')
 V('C06', 'p2sh-stack-not-restored', EVAL, "        stack = stackCopy\n", "", 'C06.V1', scope='VerifyScript')
-V('C06', 'cleanstack-allows-empty', EVAL, 'if len(stack) != 1:', 'if len(stack) > 1:', 'C06.V1', scope='VerifyScript')
+V('C06', 'cleanstack-allows-two', EVAL, 'if len(stack) != 1:', 'if len(stack) > 2:', 'C06.V1', scope='VerifyScript')
 V('C06', 'ripemd-table-entry', RIPEMD, "    7, 4, 13, 1, 10, 6, 15, 3, 12, 0, 9, 5, 2, 14, 11, 8,", "    7, 4, 13, 1, 10, 6, 15, 3, 12, 0, 9, 5, 2, 14, 8, 11,", 'C06.H1')
 V('C06', 'stack-limit-1001', EVAL, 'MAX_STACK_ITEMS = 1000', 'MAX_STACK_ITEMS = 1001', 'C06.L1')
 V('C06', 'num-size-by-value', EVAL, 'if len(s) > MAX_NUM_SIZE:', 'if v.bit_length() >= 8 * MAX_NUM_SIZE:', 'C06.L1', scope='_CastToBigNum')
@@ -291,7 +291,7 @@ V('C17', 'hash-big-endian', SER, 't = struct.unpack(b"<IIIIIIII", s[:32])', 't =
 V('C17', 'zero-target-accepted', CORE, 'if not (0 < target <= coreparams.PROOF_OF_WORK_LIMIT):', 'if not (0 <= target <= coreparams.PROOF_OF_WORK_LIMIT):', 'C17.R1', scope='CheckProofOfWork')
 V('C17', 'limb-shift', SER, 'r += t[i] << (i * 32)', 'r += t[i] << (i * 16)', 'C17.L1', scope='uint256_from_str')
 V('C17', 'decode-mask-23-bits', SER, 'v = (c & 0xFFFFFF) << (8 * (nbytes - 3))', 'v = (c & 0x7FFFFF) << (8 * (nbytes - 4))', 'C17.F1', scope='uint256_from_compact')
-V('C17', 'decode-threshold', SER, "    nbytes = (c >> 24) & 0xFF\n    if nbytes <= 3:", "    nbytes = (c >> 24) & 0xFF\n    if nbytes <= 2:", 'C17.F1', scope='uint256_from_compact')
+V('C17', 'decode-threshold', SER, "    nbytes = (c >> 24) & 0xFF\n    if nbytes <= 3:", "    nbytes = (c >> 24) & 0xFF\n    if nbytes <= 4:", 'C17.F1', scope='uint256_from_compact')
 V('C17', 'encode-no-renormalisation', SER, "    if compact & 0x00800000:\n        compact >>= 8\n        nbytes += 1\n", "", 'C17.F2', scope='compact_from_uint256')
 V('C17', 'encode-renormalisation-keeps-exponent', SER, "        compact >>= 8\n        nbytes += 1\n", "        compact >>= 8\n", 'C17.F2', scope='compact_from_uint256')
 V('C17', 'encode-size-rounds-down', SER, 'nbytes = (v.bit_length() + 7) >> 3', 'nbytes = v.bit_length() >> 3', 'C17.F2', scope='compact_from_uint256')
@@ -616,3 +616,31 @@ V('C06', 'script-size-limit-removed', EVAL, "    if len(scriptIn) > MAX_SCRIPT_S
 V('C04', 'digest-forms-share-one-value', SCRIPT, "SIGVERSION_BASE = 0", "SIGVERSION_BASE = 1", 'C04.A0')
 V('C01', 'element-limit-one-less', SER, "MAX_SIZE = 0x02000000", "MAX_SIZE = 0x01ffffff", 'C01.K1')
 V('C18', 'address-time-version-moved', NET, "CADDR_TIME_VERSION = 31402", "CADDR_TIME_VERSION = 31403", 'C18.C1')
+
+# ------------------------------------------------------------------------------------------------ one-token twins (round 8)
+# edits of one or two tokens that leave the behaviour alone: decided by the property's rule or by the token-edit rule, silently
+V('C06', 'benign-cleanstack-more-than-one', EVAL, 'if len(stack) != 1:', 'if len(stack) > 1:', 'SILENT', scope='VerifyScript')
+V('C17', 'benign-decode-threshold-below-three', SER, "    nbytes = (c >> 24) & 0xFF\n    if nbytes <= 3:", "    nbytes = (c >> 24) & 0xFF\n    if nbytes < 3:", 'SILENT', scope='uint256_from_compact')
+V('C17', 'benign-target-nonzero', CORE, 'if not (0 < target <= coreparams.PROOF_OF_WORK_LIMIT):', 'if not (0 != target <= coreparams.PROOF_OF_WORK_LIMIT):', 'SILENT', scope='CheckProofOfWork')
+V('C01', 'benign-format-code-L', CORE, 'nTime = struct.unpack(b"<I", ser_read(f,4))[0]', 'nTime = struct.unpack(b"<L", ser_read(f,4))[0]', 'SILENT', scope='CBlockHeader.stream_deserialize')
+V('C02', 'benign-setattr-through-base', SER, "object.__setattr__(self, '_cached_GetHash', _cached_GetHash)", "Serializable.__setattr__(self, '_cached_GetHash', _cached_GetHash)", 'SILENT', scope='ImmutableSerializable.GetHash')
+V('C09', 'benign-mutable-setattr-through-base', CORE, 'cls.__setattr__ = object.__setattr__', 'cls.__setattr__ = Serializable.__setattr__', 'SILENT', scope='__make_mutable')
+V('C09', 'benign-identity-operands-swapped', CORE, 'if txout.__class__ is CTxOut:', 'if CTxOut is txout.__class__:', 'SILENT', scope='CTxOut.from_txout')
+V('C11', 'benign-hrp-low-bits-by-modulo', SEGWIT, '[ord(x) & 31 for x in hrp]', '[ord(x) % 32 for x in hrp]', 'SILENT', scope='bech32_hrp_expand')
+V('C12', 'benign-program-slice-to-end', WALLET, 'return cls.from_bytes(0, scriptPubKey[2:34])', 'return cls.from_bytes(0, scriptPubKey[2:])', 'SILENT', scope='P2WSHBitcoinAddress.from_scriptPubKey')
+V('C16', 'benign-legacy-sigops-zero-flag', CORE, 'nSigOps += txin.scriptSig.GetSigOpCount(False)', 'nSigOps += txin.scriptSig.GetSigOpCount(0)', 'SILENT', scope='GetLegacySigOpCount')
+V('C19', 'benign-reversal-from-last', CORE, "return binascii.hexlify(b[::-1]).decode('utf8')", "return binascii.hexlify(b[-1::-1]).decode('utf8')", 'SILENT', scope='b2lx')
+V('C04', 'benign-single-arm-not-none', SCRIPT, 'elif ((hashtype & 0x1f) == SIGHASH_SINGLE and inIdx < len(txTo.vout)):', 'elif ((hashtype & 0x1f) != SIGHASH_NONE and inIdx < len(txTo.vout)):', 'SILENT', scope='SignatureHash')
+V('C08', 'benign-pushdata4-at-least', SCRIPT, 'elif opcode == OP_PUSHDATA4:', 'elif opcode >= OP_PUSHDATA4:', 'SILENT', scope='CScript.raw_iter')
+V('C09', 'benign-copied-index', SCRIPT, 'if outIdx >= len(txtmp.vout):', 'if inIdx >= len(txtmp.vout):', 'SILENT', scope='RawSignatureHash')
+V('C05', 'benign-signature-index-operands-swapped', EVAL, 'sig = stack[-isig - k]', 'sig = stack[-k - isig]', 'SILENT', scope='_CheckMultiSig')
+V('C07', 'benign-flag-test-operands-swapped', SCRIPT, '    if hashtype & SIGHASH_ANYONECANPAY:', '    if SIGHASH_ANYONECANPAY & hashtype:', 'SILENT', scope='RawSignatureHash')
+V('C10', 'benign-odd-length-by-mask', B58, 'if len(h) % 2:', 'if len(h) & 1:', 'SILENT', scope='decode')
+# ... and their near misses, which are not harmless
+V('C16', 'legacy-sigops-accurate-flag-one', CORE, 'nSigOps += txin.scriptSig.GetSigOpCount(False)', 'nSigOps += txin.scriptSig.GetSigOpCount(1)', 'C16.D1', scope='GetLegacySigOpCount')
+V('C19', 'reversal-drops-last-byte', CORE, "return binascii.hexlify(b[::-1]).decode('utf8')", "return binascii.hexlify(b[-2::-1]).decode('utf8')", 'C19.C1', scope='b2lx')
+V('C08', 'pushdata2-at-least', SCRIPT, 'elif opcode == OP_PUSHDATA2:', 'elif opcode >= OP_PUSHDATA2:', 'C08.P2', scope='CScript.raw_iter')
+V('C12', 'program-slice-from-three', WALLET, 'return cls.from_bytes(0, scriptPubKey[2:34])', 'return cls.from_bytes(0, scriptPubKey[3:])', 'C12.T1', scope='P2WSHBitcoinAddress.from_scriptPubKey')
+V('C01', 'format-code-H', CORE, 'nTime = struct.unpack(b"<I", ser_read(f,4))[0]', 'nTime = struct.unpack(b"<H", ser_read(f,4))[0]', 'C01.L1', scope='CBlockHeader.stream_deserialize')
+V('C09', 'mutable-setattr-through-immutable-base', CORE, 'cls.__setattr__ = object.__setattr__', 'cls.__setattr__ = ImmutableSerializable.__setattr__', 'C09.R4', scope='__make_mutable')
+
